@@ -11,6 +11,7 @@ import TwModel
 import TwSpec
 import TwProofs.Lemmas.EvalStep
 import TwProofs.Lemmas.EvalMono
+import TwProofs.Lemmas.TextIf
 
 namespace Tw.C02
 open Tw
@@ -127,6 +128,48 @@ theorem text_before_is_kept (f : Nat) (c : Ctx) (env : Env) (t : Token) (rest : 
 theorem text_after_is_appended (f : Nat) (c : Ctx) (env : Env) (t : Token) (acc : Bytes) :
     evalProg (f + 1 + 1 + 1) c env [.html t] acc = .ok (acc ++ t.lit, env) := by
   rw [evalProg_cons, evalStmt_html, Res.bind_ok, evalProg_nil]
+
+/-! ### from the source bytes: `@if(name) … [@else …] @end` among text -/
+
+/-- **exactly the chosen branch, from the source bytes to the output** — for every template made
+    of text runs, comments, `{{ name }}` blocks and `@if(name) text [@else text] @end` constructs
+    (any white space around the names), and every data map binding the names: each construct
+    renders its first text when the value of its name is truthy, its `@else` text when it is not
+    and one exists, and nothing otherwise; the text before, between and after the constructs is
+    unaffected.  Lexer (`lex_if_header`, `lex_keyword`, `lex_run`), parser (`parse_if_noelse`,
+    `parse_if_else`) and evaluator (`evalProg_wspec`) composed. -/
+theorem if_else_renders_the_chosen_branch_from_source (custom : List ((VType × Bytes) × Nat)) (items : List WItem)
+    (hok : WItemsOK items) (hsize : (wspec items).length + 6 ≤ evalFuel)
+    (data : List (Bytes × GoVal)) (env : Env) (henv : envFromMap data = .ok env) (hb : wbound env (wspec items)) :
+    evaluateStringPure custom (witemsSrc items) data = .ok (wrender env (wspec items)) :=
+  witems_render custom items hok hsize data env henv hb
+
+section example_if
+private def exItems : List WItem := [.text [.plain (b "a ")], .ifelse [] (b "ok") (b " ") [.plain (b "yes")] (some [.plain (b " no")]),
+  .text [.plain (b " m ")], .ifelse (b " ") (b "n") [] [.plain (b "N")] none, .comment (b " c "), .print [] (b "n") [], .text [.plain (b " z")]]
+private def exData (okv : GoVal) : List (Bytes × GoVal) := [(b "ok", okv), (b "n", .int 0)]
+
+example : witemsSrc exItems = b "a @if(ok )yes@else no@end m @if( n)N@end{{-- c --}}{{n}} z" := by decide
+example : WItemsOK exItems := by decide
+
+/-- ok = true: the first branch; n = 0 is falsy and has no `@else`: nothing -/
+example : evaluateStringPure [] (b "a @if(ok )yes@else no@end m @if( n)N@end{{-- c --}}{{n}} z") (exData (.bool true)) = .ok (b "a yes m 0 z") := by
+  have h := if_else_renders_the_chosen_branch_from_source [] exItems (by decide) (by decide) (exData (.bool true))
+    [[(b "n", .int 0), (b "ok", .bool true)]] (by rfl) (by decide)
+  have h1 : witemsSrc exItems = b "a @if(ok )yes@else no@end m @if( n)N@end{{-- c --}}{{n}} z" := by decide
+  have h2 : wrender [[(b "n", .int 0), (b "ok", .bool true)]] (wspec exItems) = b "a yes m 0 z" := by decide
+  rw [h1, h2] at h
+  exact h
+
+/-- ok = "" (falsy): the `@else` text -/
+example : evaluateStringPure [] (b "a @if(ok )yes@else no@end m @if( n)N@end{{-- c --}}{{n}} z") (exData (.str [])) = .ok (b "a  no m 0 z") := by
+  have h := if_else_renders_the_chosen_branch_from_source [] exItems (by decide) (by decide) (exData (.str []))
+    [[(b "n", .int 0), (b "ok", .str [])]] (by rfl) (by decide)
+  have h1 : witemsSrc exItems = b "a @if(ok )yes@else no@end m @if( n)N@end{{-- c --}}{{n}} z" := by decide
+  have h2 : wrender [[(b "n", .int 0), (b "ok", .str [])]] (wspec exItems) = b "a  no m 0 z" := by decide
+  rw [h1, h2] at h
+  exact h
+end example_if
 
 /-! ### non-vacuity and an end-to-end instance -/
 
